@@ -6,7 +6,7 @@ set -u
 D=$(realpath "$1")
 WT=/tmp/wt/verify-$$
 git -C /repo worktree add -q --detach "$WT" HEAD || exit 2
-export CARGO_TARGET_DIR=/tmp/wt/verify-target CARGO_NET_OFFLINE=true
+export CARGO_TARGET_DIR=${VERIFY_TARGET:-/tmp/wt/verify-target} CARGO_NET_OFFLINE=true
 cd "$WT"
 cp "$D/demo.rs" regexml/tests/demo_seed.rs
 base=$(cargo test --offline -q -p regexml --test demo_seed 2>&1 | grep -E "^test result" | head -1)
